@@ -14,7 +14,7 @@ fi
 SCALE="${1:-1}"
 mkdir -p $T/vd/evidence $T/vd/replays; cp /verif/known_findings.json $T/vd/; rm -f $T/*.profraw
 (cd /verif/sim && RUSTFLAGS="--cfg tokio_unstable --cfg domain_verif -C link-arg=-rdynamic -C instrument-coverage" LLVM_PROFILE_FILE=$T/build-%p.profraw CARGO_TARGET_DIR=$T/target cargo +nightly build --release --offline 2>&1 | tail -n 1) || exit 2
-rm -f $T/build-*.profraw /repo/default_*_0_*.profraw 2>/dev/null
+rm -f $T/build-*.profraw; git -C /repo clean -fq -- "default_*.profraw" 2>/dev/null  # (untracked ones only: the snapshot commit tracks a few)
 for p in C02 C08 C09 C10 C11 C14 C15 C16 C20; do
   VERIF_DIR=$T/vd VERIF_SCALE=$SCALE LLVM_PROFILE_FILE=$T/$p-%p.profraw $T/target/release/dsim check $p quick > $T/$p.log 2>&1; echo "$p exit $?"
 done
